@@ -257,6 +257,7 @@ func runC09R2(c *Ctx) {
 	// ... and nothing outside the issuing transaction may write the persisted next index back from the in-memory
 	// mirror (which lags the database inside the commit window that R1's mutex protects only for the issuers)
 	checkRowRewrites(c, "C09-R2")
+	checkMirrorStoresOnOwnBranch(c, "C09-R2")
 }
 
 func isIndexMirror(field string) bool {
